@@ -32,10 +32,26 @@ BOOL GetExitCodeProcess(HANDLE h, DWORD *c) { (void) h; *c = 0; return 1; }
 BOOL GenerateConsoleCtrlEvent(DWORD e, DWORD g) { (void) e; (void) g; return 1; }
 BOOL TerminateProcess(HANDLE h, UINT c) { (void) h; (void) c; return 1; }
 
-/* parent environment block served by GetEnvironmentStringsW */
+/* parent environment block served by GetEnvironmentStringsW. In "envrace" mode the process environment is being enlarged by
+ * somebody else (SetEnvironmentVariableW on another thread) while the start runs: the k-th snapshot taken within one start
+ * has k more entries than the first. Whatever snapshot a start uses, it has to use ONE: the record names, as penv, the
+ * latest snapshot the produced block starts with (the first one when none fits). */
 static TL wchar_t parent_block[4096]; static TL int parent_len;
+static TL int env_grow, snap_calls; static TL int snap_len[8];
+static const char GROWN[] = "ZZGROWN=0123456789abcdefghijklmnopqrstuvwxyz0123456789abcdefghijklmnopqrstuvwxyz";
 extern void *__real_malloc(size_t);
-wchar_t *GetEnvironmentStringsW(void) { wchar_t *c = __real_malloc(sizeof(wchar_t) * (size_t) (parent_len + 2)); memcpy(c, parent_block, sizeof(wchar_t) * (size_t) (parent_len + 2)); return c; }
+wchar_t *GetEnvironmentStringsW(void)
+{
+  int extra = env_grow ? snap_calls : 0, el = (int) sizeof GROWN;   /* el counts the entry's NUL */
+  int len = parent_len + extra * el;
+  wchar_t *c = __real_malloc(sizeof(wchar_t) * (size_t) (len + 2));
+  memcpy(c, parent_block, sizeof(wchar_t) * (size_t) parent_len);
+  for (int k = 0; k < extra; k++) for (int i = 0; i < el; i++) c[parent_len + k * el + i] = (wchar_t) (i == 7 && k < 10 ? '0' + k : GROWN[i]);
+  c[len] = 0; c[len + 1] = 0;
+  if (snap_calls < 8) snap_len[snap_calls] = len;
+  snap_calls++;
+  return c;
+}
 BOOL FreeEnvironmentStringsW(wchar_t *p) { free(p); return 1; }
 
 /* UTF-8 -> UTF-16 for one- and two-byte sequences (all the enumerations use); anything else is invalid input: refused when
@@ -116,7 +132,7 @@ static void run_case(const char *const *argv, int envb, const char *const *envx,
   parent_len = 0;
   for (int i = 0; penv && penv[i]; i++) { for (const char *c = penv[i]; *c; c++) parent_block[parent_len++] = (wchar_t) (unsigned char) *c; parent_block[parent_len++] = 0; }
   parent_block[parent_len] = 0; parent_block[parent_len + 1] = 0;
-  nalloc = 0; created = 0; seen_cmd_n = 0; seen_env_n = 0;
+  nalloc = 0; created = 0; seen_cmd_n = 0; seen_env_n = 0; snap_calls = 0;
   HANDLE h = NULL;
   struct process_options o;
   memset(&o, 0, sizeof o);
@@ -132,8 +148,20 @@ static void run_case(const char *const *argv, int envb, const char *const *envx,
   printf("],\"alloc\":%zu,\"envb\":%d,\"envnull\":%d,\"envx\":[", nalloc ? alloc_log[0][0] * alloc_log[0][1] : 0, envb, envx == NULL);
   for (int i = 0; envx && envx[i]; i++) { if (i) printf(","); print_codes(envx[i]); }
   printf("],\"penv\":[");
-  for (int i = 0; penv && penv[i]; i++) { if (i) printf(","); print_codes(penv[i]); }
-  printf("],\"block\":[");
+  int np = 0;
+  for (int i = 0; penv && penv[i]; i++) { if (i) printf(","); print_codes(penv[i]); np++; }
+  if (env_grow && snap_calls > 1) {
+    /* the latest snapshot of this start that the block starts with: its added entries belong to "the parent's entries" */
+    int use = 0, el = (int) sizeof GROWN;
+    for (int k = 1; k < snap_calls && k < 8; k++) {
+      int ok = seen_env_n >= snap_len[k];
+      for (int q = 0; ok && q < k; q++) for (int i = 0; ok && i < el; i++)
+        if (seen_env[parent_len + q * el + i] != (int) (i == 7 && q < 10 ? '0' + q : GROWN[i])) ok = 0;
+      if (ok) use = k;
+    }
+    for (int q = 0; q < use; q++) { char e[sizeof GROWN]; memcpy(e, GROWN, sizeof GROWN); if (q < 10) e[7] = (char) ('0' + q); if (np++) printf(","); print_codes(e); }
+  }
+  printf("],\"snaps\":%d,\"block\":[", snap_calls);
   for (int i = 0; i < seen_env_n; i++) printf("%s%d", i ? "," : "", seen_env[i]);
   printf("]}\n");
 }
@@ -241,6 +269,19 @@ int main(int argc, char **argv)
       if (mask == 0) { const char *au[] = { "prog", "caf\xC3\xA9 x", "\xC2\xA3", NULL }; run_case(au, envb, ex, pe); }
       if (mask == 0) run_case(a, envb, NULL, pe);
     }
+  } else if (!strcmp(mode, "envrace")) {
+    /* the process environment grows between any two snapshots one start takes */
+    static const char *E[] = { "a=a", "caf\xC3\xA9=\xC3\xBC", "B=two words" };
+    static const char *P[] = { "P=1", "Q= q", "=C:=x" };
+    env_grow = 1;
+    for (int envb = 0; envb <= 1; envb++) for (int np = 0; np <= 3; np++) for (int mask = 0; mask < 8; mask++) {
+      const char *pe[4] = { 0 }; for (int i = 0; i < np; i++) pe[i] = P[i];
+      const char *ex[4] = { 0 }; int n = 0; for (int b = 0; b < 3; b++) if (mask & (1 << b)) ex[n++] = E[b];
+      const char *a[] = { "prog", "x y", NULL };
+      run_case(a, envb, ex, pe);
+      if (mask == 0) run_case(a, envb, NULL, pe);
+    }
+    env_grow = 0;
   } else if (!strcmp(mode, "random")) {
     int N = L, seed = argc > 3 ? atoi(argv[3]) : 1, maxlen = argc > 4 ? atoi(argv[4]) : 60;
     srand((unsigned) seed);
